@@ -548,3 +548,64 @@ def prove_equal(lhs, rhs, what="", timeout_ms=20000, route_timeout_ms=4000):
     elif v.status != "unsat" and r2 == "unsat":
         v.status = "unsat"
     return v
+
+
+# ---------------------------------------------------------------------------
+# second solver (cvc5) on the same SMT-LIB text: thorough-tier cross-check of the solver-only route
+# ---------------------------------------------------------------------------
+def cvc5_check(constraints, timeout_ms=10000):
+    """Run cvc5 (python wheel) on the SMT-LIB2 rendering of the z3 constraints. Returns 'unsat' | 'sat' | 'unknown'."""
+    try:
+        import cvc5
+    except Exception:
+        return "unavailable"
+    s = z3.Solver()
+    for c in constraints:
+        s.add(c)
+    text = s.to_smt2()
+    try:
+        slv = cvc5.Solver()
+        slv.setOption("tlimit-per", str(int(timeout_ms)))
+        slv.setLogic("QF_NRA")
+        parser = cvc5.InputParser(slv)
+        parser.setStringInput(cvc5.InputLanguage.SMT_LIB_2_6, text, "symx")
+        sm = parser.getSymbolManager()
+        res = "unknown"
+        while True:
+            cmd = parser.nextCommand()
+            if cmd.isNull():
+                break
+            out = cmd.invoke(slv, sm)
+            if "unsat" in str(out):
+                res = "unsat"
+            elif "sat" in str(out).split():
+                res = "sat"
+        return res
+    except Exception as e:  # parser/option differences: no information
+        return "error:%s" % type(e).__name__
+
+
+_old_route = solver_route_equal
+
+
+def solver_route_equal(lhs, rhs, timeout_ms=4000, max_terms=4000):  # noqa: F811
+    rs = _old_route(lhs, rhs, timeout_ms, max_terms)
+    import os
+
+    if os.environ.get("VERIF_TIER") == "thorough" and rs in ("unsat", "sat"):
+        ql, qr = _q_of(lhs), _q_of(rhs)
+        goals = []
+        for a, b in zip(ql, qr):
+            l, r = poly_to_z3(a.n), poly_to_z3(b.n)
+            db, da = _den_z3(b), _den_z3(a)
+            if db is not None:
+                l = l * db
+            if da is not None:
+                r = r * da
+            goals.append(l != r)
+        c5 = cvc5_check(context_constraints() + [z3.Or(goals)], 8000)
+        tag = "cvc5_" + ("agree" if c5 == rs else ("noinfo" if c5 not in ("sat", "unsat") else "DISAGREE"))
+        STATS["route2_" + tag] = STATS.get("route2_" + tag, 0) + 1
+        if tag.endswith("DISAGREE"):
+            return "unknown"
+    return rs
